@@ -677,7 +677,7 @@ func tamper(c *core.Ctx, w *world, l *gen.LSXG) (*signedexchange.Exchange, strin
 		if e == nil {
 			return nil, "none"
 		}
-		ops := []string{"url", "status", "header-value", "header-add", "header-remove", "header-rename", "payload-bit", "payload-truncate-record", "payload-append", "payload-and-digest", "version", "payload-swap"}
+		ops := []string{"url", "status", "header-value", "header-add", "header-remove", "header-rename", "payload-bit", "payload-truncate-record", "payload-append", "payload-and-digest", "version", "payload-swap", "payload-recordsize"}
 		if l.Version != "1b3" {
 			ops = append(ops, "method", "req-header-add")
 		}
@@ -738,6 +738,23 @@ func tamper(c *core.Ctx, w *world, l *gen.LSXG) (*signedexchange.Exchange, strin
 			}
 		case "payload-append":
 			e.Payload = append(e.Payload, c.Bytes("field.extra", 1, 40)...)
+		case "payload-recordsize":
+			// rewrite the (unsigned) record-size field so that a record and the proof
+			// after it are taken for one record, and cut the stream right there
+			if len(e.Payload) >= 8 {
+				nrs := uint64(l.RS) + uint64(c.PickInt("field.rsdelta", 32, 1, 31, 33, 64))
+				if c.Bool("field.rsSmaller") && l.RS > 1 {
+					nrs = uint64(c.Int("field.rsSmall", 1, l.RS-1))
+				}
+				for i := 0; i < 8; i++ {
+					e.Payload[7-i] = byte(nrs >> (8 * uint(i)))
+				}
+				if c.Bool("field.rsCut") && len(e.Payload) > 8+l.RS+32 {
+					e.Payload = e.Payload[:8+l.RS+32]
+				}
+			} else {
+				e.Payload = []byte{0, 0, 0, 0, 0, 0, 0, 1, 'x'}
+			}
 		case "payload-and-digest":
 			// replace the body and the (signed) Digest header consistently
 			d := refmice.Draft03
@@ -802,6 +819,23 @@ func judgeAccept(c *core.Ctx, w *world, e *signedexchange.Exchange, payload []by
 	}
 	if !inWindow(t, match) {
 		c.Violation("accepted-outside-window", "Exchange.Verify", "verification succeeded at t=%d.%09d outside the signed window [%d,%d] (%s)", t.Unix(), t.Nanosecond(), match.Date, match.Expires, what)
+	}
+	// spec step 6: some listed signature's cert-sha256 parameter is the hash of the fetched leaf
+	servedHash := sha256.Sum256(leafOf(w.net.served))
+	bound := false
+	for _, item := range strings.Split(e.SignatureHeaderValue, ", ") {
+		_, ps, err := refsxg.ParseSignature(item)
+		if err != nil {
+			continue
+		}
+		for _, p := range ps {
+			if b, ok := refsxg.BytesOf(p.Raw); ok && p.Key == "cert-sha256" && bytes.Equal(b, servedHash[:]) {
+				bound = true
+			}
+		}
+	}
+	if !bound {
+		c.Violation("cert-sha256-not-bound", "Exchange.Verify", "verification succeeded although no signature's cert-sha256 parameter equals SHA-256 of the fetched leaf certificate (%s)", what)
 	}
 	if leaf := leafOf(w.net.served); !bytes.Equal(leaf, match.Leaf.DER) {
 		h := sha256.Sum256(leaf)
